@@ -56,6 +56,9 @@ type Opts struct {
 	// (SSTORE of calldata[0..32] := calldata[32..64], zero values delete slots), so that states carry
 	// storage tries and code. Off by default; when off no extra random numbers are drawn.
 	WithContracts bool
+	// FreshTransfers (requires WithTxs): every block additionally carries this many 1-wei transfers to addresses that
+	// never occurred before (big states: hundreds of new account leaves per block). 0 by default; draws no random numbers.
+	FreshTransfers int
 }
 
 // contractInit deploys: SSTORE(7, v) then returns the 8-byte runtime `SSTORE(calldata[0], calldata[32]); STOP`.
@@ -108,6 +111,24 @@ func (t *Tree) AddChild(r *hx.Rng, parent int) *Node {
 		b.SetExtra([]byte{byte(id >> 8), byte(id)}) // siblings differ even with equal content
 		if t.Opts.MaxOffset > t.Opts.MinOffset {
 			b.OffsetTime(t.Opts.MinOffset + int64(r.Intn(int(t.Opts.MaxOffset-t.Opts.MinOffset))))
+		}
+		if t.Opts.WithTxs && t.Opts.FreshTransfers > 0 {
+			for k := 0; k < t.Opts.FreshTransfers; k++ {
+				from := k % len(t.Keys)
+				to := common.BytesToAddress([]byte{0xf5, byte(id >> 8), byte(id), byte(k >> 8), byte(k)})
+				raw := types.NewTransaction(b.TxNonce(t.Addrs[from]), to, big.NewInt(1), 21000, big.NewInt(1), nil)
+				tx, err := types.SignTx(raw, t.Signer, t.Keys[from])
+				if err != nil {
+					panic(err)
+				}
+				b.AddTx(tx)
+				h := tx.Hash()
+				if _, ok := t.txIndex[h]; !ok {
+					t.txIndex[h] = len(t.Txs)
+					t.Txs = append(t.Txs, tx)
+				}
+				txids = append(txids, t.txIndex[h])
+			}
 		}
 		if t.Opts.WithTxs {
 			for k := r.Intn(3); k > 0; k-- {
